@@ -136,6 +136,22 @@ pub fn tok_matches(exp: &FTok, got: &LTok) -> Result<(), String> {
     }
 }
 
+/// C18/C19: IF_DATA decoded under an A2ML definition keeps float and double values exactly (the
+/// generators emit only f32-representable values for `float` members), so the f32 tolerance that
+/// tok_matches grants inside IF_DATA does not apply there. Returns the first differing pair.
+pub fn first_inexact_float(flat: &Flat, out: &[LTok]) -> Option<(String, String)> {
+    for (ft, lt) in flat.toks.iter().zip(out.iter()) {
+        if ft.in_ifdata && ft.tok.kind == TK::Float {
+            if let (Some(a), Some(b)) = (as_f64(&ft.tok.val), as_f64(&lt.val)) {
+                if a != b && !(a == 0.0 && b == 0.0) {
+                    return Some((ft.tok.text.clone(), lt.text.clone()));
+                }
+            }
+        }
+    }
+    None
+}
+
 pub struct TokenDiff {
     pub index: usize,
     pub msg: String,
